@@ -81,7 +81,8 @@ def _thorough_extras(check, module, prop_id, root, overlay):
             check.note('deep unrolling not completed: %s' % err)
     # (2) firing variants and silent twins, analysed in memory
     if overlay is None:
-        results = run_selftest(prop_id, root, twin_sample=90, seed=check.seed)
+        results = run_selftest(prop_id, root, seed=check.seed, twin_sample=int(
+            os.environ.get('VERIF_TWIN_SAMPLE', '46')))
         summary = summarise(results)
         summary['details'] = [
             {k: r.get(k) for k in ('id', 'kind', 'status', 'what', 'reported')}
